@@ -644,7 +644,30 @@ Qed.
 
 (* ---------- breaks ---------- *)
 
+(* the end time of a break record: the written end, unless it lies before the
+   start ([if end < start { start } else { end }]) *)
 Definition break_ok (b : BreakPeriod) : Prop := D.le (bp_start b) (bp_end b) = true.
+(* the same order condition in the form the code tests it (weaker only in that
+   it does not exclude NaN, which [pn_f64] never yields) *)
+Definition break_ordered (b : BreakPeriod) : Prop := D.lt (bp_end b) (bp_start b) = false.
+
+Lemma break_ok_ordered b : break_ok b -> break_ordered b.
+Proof. unfold break_ok, break_ordered. apply (fle_nlt 53 1024). Qed.
+
+Lemma break_end_ge_start (s e : F64) :
+  D.is_nan s = false -> D.is_nan e = false -> D.le s (if D.lt e s then s else e) = true.
+Proof.
+  intros Hs He. destruct (D.lt e s) eqn:E.
+  - now apply (fle_refl 53 1024).
+  - now apply (fnlt_fle 53 1024).
+Qed.
+Lemma break_end_ge_end (s e : F64) :
+  D.is_nan s = false -> D.is_nan e = false -> D.le e (if D.lt e s then s else e) = true.
+Proof.
+  intros Hs He. destruct (D.lt e s) eqn:E.
+  - now apply (flt_fle 53 1024).
+  - now apply (fle_refl 53 1024).
+Qed.
 
 Lemma parse_events_breaks st l :
   Forall break_ok (ev_breaks st) -> Forall break_ok (ev_breaks (fst (parse_events st l))).
@@ -658,7 +681,7 @@ Proof.
     destruct (pn_f64 params) as [e|] eqn:Ee; [|exact H].
     cbn [fst ev_breaks set_ev_breaks]. apply Forall_app. split; [exact H|].
     constructor; [|constructor]. unfold break_ok. cbn [bp_start bp_end].
-    apply (fmax_ge_left 53 1024); [exact (pn_f64_not_nan _ _ Es)|exact (pn_f64_not_nan _ _ Ee)].
+    apply break_end_ge_start; [exact (pn_f64_not_nan _ _ Es)|exact (pn_f64_not_nan _ _ Ee)].
   - unfold act_sprite. destruct (ev_background_file st); [|exact H]. destruct more; exact H.
   - destruct n; exact H.
 Qed.
@@ -671,18 +694,44 @@ Proof.
   apply (IH (fst (parse_events st l))). now apply parse_events_breaks.
 Qed.
 
-(* ... and the end is the later of the two written times *)
+Theorem events_run_breaks_ordered lines :
+  Forall break_ordered (ev_breaks (run_lines parse_events events_default lines)).
+Proof.
+  eapply Forall_impl; [exact break_ok_ordered|].
+  exact (events_run_breaks lines events_default (Forall_nil _)).
+Qed.
+
+(* ... and the end is the written end time, or the start when that is later *)
 Lemma break_line st start params more s e :
   pn_f64 start = Some s -> pn_f64 params = Some e ->
-  fst (act_break start params more st) =
-    set_ev_breaks st (ev_breaks st ++ [mkBreak s (D.max s e)]) /\
-  D.le s (D.max s e) = true /\ D.le e (D.max s e) = true /\ (D.max s e = s \/ D.max s e = e).
+  let e' := if D.lt e s then s else e in
+  fst (act_break start params more st) = set_ev_breaks st (ev_breaks st ++ [mkBreak s e']) /\
+  D.le s e' = true /\ D.le e e' = true /\ D.lt e' s = false /\ (e' = s \/ e' = e).
 Proof.
-  intros Es Ee. unfold act_break. rewrite Es, Ee. split; [reflexivity|].
-  pose proof (pn_f64_not_nan _ _ Es). pose proof (pn_f64_not_nan _ _ Ee).
-  split; [now apply (fmax_ge_left 53 1024)|]. split; [now apply (fmax_ge_right 53 1024)|].
-  apply (fmax_is_one 53 1024).
+  intros Es Ee e'. unfold act_break. rewrite Es, Ee. split; [reflexivity|].
+  pose proof (pn_f64_not_nan _ _ Es) as Hs. pose proof (pn_f64_not_nan _ _ Ee) as He.
+  pose proof (break_end_ge_start s e Hs He) as G.
+  split; [exact G|]. split; [now apply break_end_ge_end|].
+  split; [exact (fle_nlt 53 1024 _ _ G)|].
+  unfold e'. destruct (D.lt e s); auto.
 Qed.
+
+(* a record whose end is not before its start keeps the written end time as it
+   is -- the very same value, so also the sign of a zero: nothing is computed *)
+Lemma break_line_kept st start params more s e :
+  pn_f64 start = Some s -> pn_f64 params = Some e -> D.le s e = true ->
+  fst (act_break start params more st) = set_ev_breaks st (ev_breaks st ++ [mkBreak s e]).
+Proof.
+  intros Es Ee L. unfold act_break. rewrite Es, Ee.
+  pose proof (fle_nlt 53 1024 _ _ L) as N. change (flt 53 1024 e s) with (D.lt e s) in N.
+  rewrite N. reflexivity.
+Qed.
+
+(* a record written backwards ends where it starts *)
+Lemma break_line_reversed st start params more s e :
+  pn_f64 start = Some s -> pn_f64 params = Some e -> D.lt e s = true ->
+  fst (act_break start params more st) = set_ev_breaks st (ev_breaks st ++ [mkBreak s s]).
+Proof. intros Es Ee L. unfold act_break. rewrite Es, Ee, L. reflexivity. Qed.
 
 (* ---------- background precedence ---------- *)
 
